@@ -78,6 +78,9 @@ def fields_for(graph, as_files):
     for i, node in enumerate(graph):
         kind = node[0]
         if kind == "missing":
+            if as_files:
+                # a healthy file of that name in the WORKING directory (not the program's): it must not be found
+                out.append("Wl%d.sld=(define-library (l%d) (import (scheme base)) (export v%d) (begin (define v%d %d)))" % (i, i, i, i, 70 + i))
             continue
         if kind == "unreadable":
             if as_files:
@@ -164,7 +167,7 @@ def main(tier, seed):
     rep = C.Report(PROP, tier, seed)
     rng = random.Random(seed)
     rep.cov["rule"] = ("library graphs on 1-3 nodes, each node healthy or with a faulting body and any subset (ordered for n<=2) of "
-                       "dependencies, or missing / defining another name (an unused one, or ANOTHER NODE's name with a different body) / syntactically broken / not UTF-8; all 1- and 2-node "
+                       "dependencies, or missing (with a decoy of that name in the process's working directory) / defining another name (an unused one, or ANOTHER NODE's name with a different body) / syntactically broken / not UTF-8; all 1- and 2-node "
                        "configurations x all histories of 3 attempts, 1200 sampled (thorough: all) 3-node configurations x "
                        "histories of 2 attempts; as files under a program directory that is not the working directory, and as "
                        "registered sources; distinct = (graph, history, variant)")
